@@ -1783,6 +1783,129 @@ fn corpus(pool: &Pool) -> Vec<(Vec<Sym>, Vec<Combo>)> {
     c
 }
 
+// ------------------------------- start_answer / start_error / request_axfr
+
+fn set_header(hd: &mut domain::base::Header, h: [u8; 4]) {
+    hd.set_id(u16::from_be_bytes([h[0], h[1]]));
+    hd.set_qr(h[2] & 0x80 != 0);
+    hd.set_opcode(Opcode::from_int((h[2] >> 3) & 0x0F));
+    hd.set_aa(h[2] & 0x04 != 0);
+    hd.set_tc(h[2] & 0x02 != 0);
+    hd.set_rd(h[2] & 0x01 != 0);
+    hd.set_ra(h[3] & 0x80 != 0);
+    hd.set_z(h[3] & 0x40 != 0);
+    hd.set_ad(h[3] & 0x20 != 0);
+    hd.set_cd(h[3] & 0x10 != 0);
+    hd.set_rcode(Rcode::masked_from_int(h[3] & 0x0F));
+}
+
+/// Oracle-only cases (no model counterpart): the three convenience
+/// constructors are header setters + question pushes + `.answer()`.
+fn start_case<T: Tgt>(out: &mut Out, r: &mut Rng, pool: &Pool, mk: impl Fn() -> T, label: &str) {
+    let nq = r.below(4) as usize;
+    let mut qs: Vec<EQ> = Vec::new();
+    for _ in 0..nq {
+        let mut w = r.pick(&pool.suffixes).clone();
+        if r.chance(2, 3) {
+            let l = r.pick(&pool.labels).clone();
+            if let Some(n) = prepend(&l, &w) { w = n; }
+        }
+        qs.push(EQ { name: w, qt: *r.pick(&[1u16, 28, 255, 6, 252]), qc: *r.pick(&[1u16, 1, 3, 255]) });
+    }
+    let sh = r.u32().to_be_bytes();
+    let prev = r.u32().to_be_bytes();
+    let rc = r.below(16) as u8;
+    let limit = if r.chance(1, 2) { Some(r.range(12, 90) as usize) } else { None };
+    let mode = r.below(3);
+    let case = format!("start {} mode={} src_hdr={} prev_hdr={} rcode={} limit={:?} questions={}", label, mode, hexraw(&sh), hexraw(&prev), rc, limit,
+        qs.iter().map(|q| format!("{}/{}/{}", hexraw(&q.name), q.qt, q.qc)).collect::<Vec<_>>().join(","));
+    out.begin(&case);
+    // the source query, with compressed names
+    let src = {
+        let mut mb = match MessageBuilder::from_target(StaticCompressor::new(Vec::new())) { Ok(m) => m, Err(_) => return };
+        set_header(mb.header_mut(), sh);
+        let mut qb = mb.question();
+        for q in &qs {
+            let _ = qb.push((to_name(&q.name), Rtype::from_int(q.qt), Class::from_int(q.qc)));
+        }
+        match Message::from_octets(qb.finish().into_target()) { Ok(m) => m, Err(_) => return }
+    };
+    let mut b = match MessageBuilder::from_target(mk()) { Ok(m) => m, Err(_) => return };
+    set_header(b.header_mut(), prev);
+    if let Some(l) = limit { b.set_push_limit(l); }
+    // how many questions fit: the same pushes on a copy
+    let fit = {
+        let mut qb = b.clone().question();
+        let mut k = 0usize;
+        for q in &qs {
+            if qb.push((to_name(&q.name), Rtype::from_int(q.qt), Class::from_int(q.qc))).is_err() { break; }
+            k += 1;
+        }
+        k
+    };
+    let class: &'static str = match mode { 0 => "start_answer_wrong", 1 => "start_error_wrong", _ => "request_axfr_wrong" };
+    let check_msg = |out: &mut Out, m: &[u8], want_q: &[EQ], want_h23: [u8; 2], want_id: Option<[u8; 2]>| {
+        let mut acc = Acc::default();
+        for q in want_q { acc.q.push(EQ { name: q.name.clone(), qt: q.qt, qc: q.qc }); }
+        match reparse(m, &acc) {
+            Ok(_) => out.check(true, class, &case, ""),
+            Err((_, d)) => out.check(false, class, &case, &format!("re-parse: {}", d)),
+        }
+        out.check(m.len() >= 12 && m[2] == want_h23[0] && m[3] == want_h23[1], class, &case,
+            &format!("header flags {} wanted {}", hexraw(&m[2..4.min(m.len())]), hexraw(&want_h23)));
+        if let Some(id) = want_id {
+            out.check(m[..2] == id, class, &case, &format!("id {} wanted {}", hexraw(&m[..2]), hexraw(&id)));
+        }
+    };
+    // qr set, opcode and rd from the query, rcode as given, aa/tc/ra/z/ad/cd as before
+    let flags = |rcode: u8| [0x80 | (sh[2] & 0x78) | (prev[2] & 0x06) | (sh[2] & 0x01), (prev[3] & 0xF0) | (rcode & 0x0F)];
+    match mode {
+        0 => match catch_mut(|| b.start_answer(&src, Rcode::masked_from_int(rc))) {
+            Err(p) => out.check(false, class, &case, &format!("panic {}", p)),
+            Ok(Ok(ab)) => {
+                out.check(fit == nq, class, &case, &format!("Ok although only {} of {} questions fit", fit, nq));
+                check_msg(out, ab.as_slice(), &qs, flags(rc), Some([sh[0], sh[1]]));
+            }
+            Ok(Err(_)) => out.check(fit < nq, class, &case, "Err although every question fits"),
+        },
+        1 => match catch_mut(|| b.start_error(&src, Rcode::masked_from_int(rc))) {
+            Err(p) => out.check(false, class, &case, &format!("panic {}", p)),
+            Ok(ab) => check_msg(out, ab.as_slice(), &qs[..fit], flags(if fit < nq { 2 } else { rc }), Some([sh[0], sh[1]])),
+        },
+        _ => {
+            let apex = if nq > 0 { qs[0].name.clone() } else { vec![0u8] };
+            let one = {
+                let mut qb = b.clone().question();
+                qb.push((to_name(&apex), Rtype::from_int(252), Class::from_int(1))).is_ok()
+            };
+            match catch_mut(|| b.request_axfr(to_name(&apex))) {
+                Err(p) => out.check(false, class, &case, &format!("panic {}", p)),
+                Ok(Ok(ab)) => {
+                    out.check(one, class, &case, "Ok although the question does not fit");
+                    check_msg(out, ab.as_slice(), &[EQ { name: apex.clone(), qt: 252, qc: 1 }], [prev[2], prev[3]], None);
+                }
+                Ok(Err(_)) => out.check(!one, class, &case, "Err although the question fits"),
+            }
+        }
+    }
+    out.oracle_case(&case, true, "start_helpers");
+}
+
+fn start_cases(out: &mut Out, r: &mut Rng, pool: &Pool, n: u64) {
+    for i in 0..n {
+        match i % 8 {
+            0 => start_case(out, r, pool, || Vec::<u8>::new(), "v.n"),
+            1 => start_case(out, r, pool, || StaticCompressor::new(Vec::<u8>::new()), "v.s"),
+            2 => start_case(out, r, pool, || TreeCompressor::new(BytesMut::new()), "b.t"),
+            3 => start_case(out, r, pool, || HashCompressor::new(StreamTarget::new_vec()), "s.h"),
+            4 => start_case(out, r, pool, || Array::<40>::default(), "a40.n"),
+            5 => start_case(out, r, pool, || StaticCompressor::new(Array::<40>::default()), "a40.s"),
+            6 => start_case(out, r, pool, || HashCompressor::new(Array::<128>::default()), "a128.h"),
+            _ => start_case(out, r, pool, || StreamTarget::new_vec(), "s.n"),
+        }
+    }
+}
+
 // ------------------------------------------------------ count overflow case
 
 fn count_overflow(out: &mut Out) {
@@ -1865,6 +1988,10 @@ fn main() {
         }
     }
 
+    if a.only.is_none() {
+        let mut sr = r.fork();
+        start_cases(&mut out, &mut sr, &pool, 160 * mul);
+    }
     if a.thorough {
         idx += 1;
         if out.wants(idx) {
